@@ -139,3 +139,17 @@ package extractor
 //@   assert at "return sb.String()" : lbx_seps(addrof(sb)) == (if lbx_elems(addrof(sb)) > 0 then lbx_elems(addrof(sb)) - 1 else 0)
 //@   loop 1 invariant wfIdx(s.indices, len(s.linePtr))
 //@   loop 1 invariant i >= 1 && lbx_elems(addrof(sb)) == i - 1 && lbx_seps(addrof(sb)) == (if i > 2 then i - 2 else 0)
+
+// ---- C02: key lookup: src / line / named groups / unknown names ----
+//@ smt
+//@ (declare-fun utoa (Int) Str)     ; strconv.FormatUint(n, 10)
+//@ end
+//@ extern strconv.FormatUint
+//@   params (i, base)
+//@   pure
+//@   ensures base == 10 ==> result == utoa(i)
+//@ func (*SliceSpaceExpressionContext).GetKey
+//@   requires wfIdx(s.indices, len(s.linePtr))
+//@   ensures [src] key == "src" ==> result == s.source
+//@   ensures [line] key == "line" ==> result == utoa(s.lineNum)
+//@   ensures [unknown] key != "src" && key != "line" && key != "." && key != "#" && key != ".#" && key != "#." && key != "@" && !in_dom(s.nameTable, key) ==> result == "<NAME>"
